@@ -303,6 +303,12 @@ where
         ));
     }
 
+    // the pixel data is no longer encapsulated:
+    // the attributes which describe its fragments no longer apply
+    obj.remove_element(tags::ENCAPSULATED_PIXEL_DATA_VALUE_TOTAL_LENGTH);
+    obj.remove_element(tags::EXTENDED_OFFSET_TABLE);
+    obj.remove_element(tags::EXTENDED_OFFSET_TABLE_LENGTHS);
+
     // change transfer syntax to Explicit VR little endian
     obj.update_meta(|meta| meta.set_transfer_syntax(ts));
 
